@@ -60,11 +60,19 @@ func ApplyClusterChanges(config *model.ClusterConfig, currentStatus *model.Clust
 			ReplicationFactor: nc.ReplicationFactor,
 		}
 
+		// Either every shard of the namespace gets an ensemble or the namespace is not created at all:
+		// leaving out the refused shards would publish a namespace whose hash space has gaps (or no
+		// shard at all), and it would never be completed because the namespace then exists in the status.
+		// A namespace that is not created is retried on the next configuration change.
+		serverIdx := newStatus.ServerIdx
+		placed := true
 		for _, shard := range sharding.GenerateShards(newStatus.ShardIdGenerator, nc.InitialShardCount) {
 			var esm []model.Server
 			if esm, err = ensembleSupplier(&nc, newStatus); err != nil {
-				slog.Error("failed to select new ensembles.", slog.Any("shard", shard), slog.Any("error", err))
-				continue
+				slog.Error("failed to select new ensembles, the namespace is not created.",
+					slog.String("namespace", nc.Name), slog.Any("shard", shard), slog.Any("error", err))
+				placed = false
+				break
 			}
 			shardMetadata := model.ShardMetadata{
 				Status:   model.ShardStatusUnknown,
@@ -79,7 +87,13 @@ func ApplyClusterChanges(config *model.ClusterConfig, currentStatus *model.Clust
 
 			nss.Shards[shard.Id] = shardMetadata
 			newStatus.ServerIdx = (newStatus.ServerIdx + nc.ReplicationFactor) % uint32(len(config.Servers))
-			shardsToAdd[shard.Id] = nc.Name
+		}
+		if !placed {
+			newStatus.ServerIdx = serverIdx
+			continue
+		}
+		for shardId := range nss.Shards {
+			shardsToAdd[shardId] = nc.Name
 		}
 		newStatus.Namespaces[nc.Name] = nss
 
